@@ -264,10 +264,13 @@ impl Lower {
 
         parent_messages.push(message.name().into());
 
-        nested_messages
+        // in declaration order: `nested_messages` is a hash map with a
+        // per-process random seed, and this order reaches the generated code
+        message
+            .nested_type
             .iter()
-            .filter(|(_, m)| !m.options.has_map_entry())
-            .for_each(|(_, m)| {
+            .filter(|m| !m.options.has_map_entry())
+            .for_each(|m| {
                 self.lower_message(m, parent_messages)
                     .into_iter()
                     .for_each(|item| nested_items.push(Arc::new(item)))
